@@ -259,6 +259,9 @@ def _run_given(prop: str, clause: Clause, tier: str, seed: int, shard: int, rec:
     import hypothesis
     from hypothesis import HealthCheck, Phase, given, settings
 
+    import warnings
+
+    warnings.filterwarnings("ignore", category=hypothesis.errors.HypothesisWarning)
     assert clause.strategy is not None
     n = clause.quick if tier == "quick" else clause.thorough
     scale = float(os.environ.get("VERIF_SCALE", "1"))
